@@ -14,7 +14,8 @@ What differs is WHAT is tracked. The inputs of a cached / derived box:
     the invalidation    `<o>._invalidate_bbox()` -> inval (NOT inlined: how far it climbs is read off its body once,
                         see `climb_of`)
     reads               a load of `bbox / width / height / size / left / top / right / bottom / offset` on an API object
-                        between an invalidation and a later mutation of the same segment (it may fill a cache)
+                        between an invalidation and a later mutation of the same segment (it may fill a cache); a
+                        message formatted with an API object (`"…".format(self)`: `repr` of a group reads its box)
 
 A loop `for x in <o>.descendants()` / `for x in <o>` / `for x in <o>._layers[:]` whose body only acts on `x` is not a
 segment of its own: its effects are emitted once with the scope `descendants` / `children` of <o> (tests of the form
@@ -210,6 +211,12 @@ class _Flat14(_Flat):
                     continue
                 if self._layerish_expr(raw, layerish) or base == EACH:
                     self.emit("read", _owner(base), n.attr, list(guards))
+            if isinstance(n, ast.Call) and isinstance(n.func, ast.Attribute) and n.func.attr == "format":
+                # a message formatted with an API object: `Layer.__repr__` reads `width`, hence the box of a group
+                for a in n.args:
+                    raw = ast.unparse(a)
+                    if isinstance(a, (ast.Name, ast.Attribute)) and self._layerish_expr(raw, layerish):
+                        self.emit("read", _owner(_norm(_subst(a, env))), "repr", list(guards))
         super().exprs(cls, fn, node, env, guards, depth, stack, layerish)
 
     def call(self, cls, fn, c, env, guards, depth, stack, layerish, in_comp):
@@ -327,7 +334,7 @@ def _to_effects(events):
     # a read matters only between an invalidation and a later mutation
     keep = []
     for i, e in enumerate(merged):
-        if e[0] == "read":
+        if e[0] == "read" and e[2] != "repr":
             before = any(x[0] in ("inval", "reset") for x in merged[:i])
             after = any(x[0] == "mutate" for x in merged[i + 1:])
             if not (before and after):
